@@ -19,16 +19,21 @@ import Mathlib.Data.Matrix.Mul
                                                     the list `gs` (list order = circuit order)
     * `getRowCol G`, `embedBlock G c r`           — `_get_row_col`'s search and the block it returns
 
-  FINDING (exact arithmetic, see `C02_qr_residual_unlocated`): after the sweep `gate` has only zeros
-  below the diagonal, so `_get_row_col(gate)` finds no entry `!= 0 and != 1`, leaves `col`/`row`
-  unbound and `_row_and_col_qubits(col, …)` raises `UnboundLocalError` — for EVERY input the sweep
-  accepts.  The real code gets past this point only because floating-point rounding leaves entries
-  of size ~1e-17 below the diagonal; `_get_row_col` then returns the LAST such position (row-major),
-  usually `(N-1, N-2)`, and the circuit implements the (numerically diagonal) 2×2 block found there.
-  This is correct iff that position is in the last row (`C02_qr_residual_located`).  Reproducer with
-  exactly representable entries, no zero entry, where rounding does not help:
-      unitary(np.array([[1+1j, 1+1j], [1+1j, -1-1j]]) / 2, 'qr')   →  UnboundLocalError
-  (`exHi` below; every intermediate float operation is exact, the residual is exactly diag(1, i)).
+  FINDING F-C02-4 (repaired in /repo, commit 33a8d4e).  After the sweep `gate` has only zeros below
+  the diagonal.  BEFORE the repair `_get_row_col(gate)` found no entry `!= 0 and != 1`, left
+  `col`/`row` unbound and raised `UnboundLocalError` — in exact arithmetic for EVERY input the sweep
+  accepts (`C02_qr_residual_unlocated_before_fix`, model `getRowColOld`); the code only worked through
+  rounding noise (~1e-17 below the diagonal).  Reproducer with exactly representable entries:
+      unitary(np.array([[1+1j, 1+1j], [1+1j, -1-1j]]) / 2, 'qr')   (`exHi` below)
+  NOW `_get_row_col` (`getRowCol` = the executable `QrLoc.getRowColG` of Model/QrLocate.lean at
+  `α = ℂ`, exact equality for `np.allclose`): the last hit wins; without a hit the matrix must be the
+  identity except possibly its LAST diagonal entry and is then located at `(row, col) = (N-1, N-2)`,
+  otherwise `ValueError` (`none`).  The exact residual `diag(1, …, 1, e^{iφ})` is accepted at the last
+  two levels, its block is `diag(1, e^{iφ})`, and the whole circuit denotes `U` with no assumption
+  about noise (`C02_qr_residual_default`, `C02_qr_full`, `C02_qr_circuit`).  Rounding noise can still
+  override the default: a noise entry outside the last row still drops the phase
+  (`C02_qr_residual_located`).  A rotation with `b = 1`, or with `b = 0` unless it is
+  `diag(1, …, 1, −1)`, is rejected (`C02_qr_locate`) — the clause "without zero entries".
 -/
 namespace Qclib
 open Qclib.QrFull Matrix
@@ -129,20 +134,29 @@ theorem C02_qr_residual (U : Mat N) (hU : Uᴴ * U = 1) (hok : SweepOk (pairs N)
 
 example : ex345ᴴ * ex345 = 1 ∧ SweepOk (pairs 2) ex345 := ⟨ex345_unitary, ex345_ok⟩
 
-/-- **C02 (`_get_row_col` on the appended rotations).**  For `col < row` and `norm ≠ 0`: if
-`b = gate[row, col] / norm` is neither `0` nor `1` then `_get_row_col(matrix_rotation†)` finds
-exactly `(row, col)` and the 2×2 block it returns, placed on `|0⟩ ↔ col`, `|1⟩ ↔ row` (what
-`C02_qr_orientation` proves the circuit does), is `matrix_rotation†` itself.  If `b = 0` — which
-(given `norm ≠ 0`) means `gate[row, col] = 0` at that moment — or `b = 1`, the search finds nothing
-(Python: `UnboundLocalError`); this is the failure the clause "without zero entries" is about. -/
+/-- **C02 (`_get_row_col` on the appended rotations).**  For `col < row` and `norm ≠ 0`:
+* if `b = gate[row, col] / norm` is neither `0` nor `1` then `_get_row_col(matrix_rotation†)` ends
+  with exactly `(row, col)` and the 2×2 block it returns, placed on `|0⟩ ↔ col`, `|1⟩ ↔ row` (what
+  `C02_qr_orientation` proves the circuit does), is `matrix_rotation†` itself (`codeMatrix`);
+* if `b = 1` it raises `ValueError` (no hit, and the `1` below the diagonal fails the acceptance
+  test);
+* if `b = 0` — which (given `norm ≠ 0`) means `gate[row, col] = 0` at that moment — then
+  `matrix_rotation† = diag(…, a, …, −conj a, …)` and it is accepted, at the default `(N-1, N-2)`,
+  exactly when `a = 1` and `row = N-1` (i.e. it is `diag(1, …, 1, −1)`, for any `col`); otherwise
+  `ValueError`.  This is the case the clause "without zero entries" excludes. -/
 theorem C02_qr_locate (M : Mat N) {col row : Fin N} (hcr : col < row)
     (hν : pairNorm (M col col) (M row col) ≠ 0) :
     (gB M col row ≠ 0 → gB M col row ≠ 1 →
-      getRowCol (givens M col row)ᴴ = some (row, col) ∧
-      embedBlock (givens M col row)ᴴ col row = (givens M col row)ᴴ) ∧
-    (gB M col row = 0 ∨ gB M col row = 1 → getRowCol (givens M col row)ᴴ = none) ∧
+      getRowCol (givens M col row)ᴴ = some (row.val, col.val) ∧
+      codeMatrix (givens M col row)ᴴ = some (givens M col row)ᴴ) ∧
+    (gB M col row = 1 → getRowCol (givens M col row)ᴴ = none) ∧
+    (gB M col row = 0 →
+      (gA M col row = 1 ∧ row.val + 1 = N →
+        getRowCol (givens M col row)ᴴ = some (N - 1, N - 2)) ∧
+      (¬ (gA M col row = 1 ∧ row.val + 1 = N) → getRowCol (givens M col row)ᴴ = none)) ∧
     (gB M col row = 0 ↔ M row col = 0) := by
-  refine ⟨fun h0 h1 => getRowCol_factor M hcr h0 h1, getRowCol_factor_none M hcr, ?_⟩
+  refine ⟨fun h0 h1 => getRowCol_factor M hcr h0 h1, getRowCol_factor_one M hcr,
+    getRowCol_factor_zero M hcr, ?_⟩
   have hνc : ((pairNorm (M col col) (M row col) : ℝ) : ℂ) ≠ 0 := by exact_mod_cast hν
   unfold gB
   rw [div_eq_zero_iff]
@@ -151,26 +165,40 @@ theorem C02_qr_locate (M : Mat N) {col row : Fin N} (hcr : col < row)
 /-- non-vacuity: in `(1/5)·[[3, 4], [4, −3]]`, `b = 4/5`. -/
 example : gB ex345 0 1 ≠ 0 ∧ gB ex345 0 1 ≠ 1 := ex345_loc
 
-/-- **C02 (FINDING: `_get_row_col` cannot locate the residual).**  For every `N` and every matrix
-`U` whose sweep never meets `norm = 0` — in particular every unitary without zero entries the
-property speaks of — the residual has only zeros below the diagonal, hence `_get_row_col(residual)`
-finds no entry that is `!= 0` and `!= 1`: in exact arithmetic `_build_qr_circuit` raises
-`UnboundLocalError` on the FIRST element of `gate_sequence`, for every input.  (The real code
-survives on rounding noise, see `C02_qr_residual_located`.) -/
-theorem C02_qr_residual_unlocated (U : Mat N) (hok : SweepOk (pairs N) U) :
-    getRowCol (residual U) = none :=
-  getRowCol_none _ (C02_qr_triangular U hok).1
+/-- **C02 (the residual is accepted at the last two levels).**  For `N ≥ 2` and every unitary `U`
+whose sweep never meets `norm = 0`, the residual is `diag(1, …, 1, e^{iφ})`: `_get_row_col` has no
+hit, the acceptance test (identity except possibly the last diagonal entry) passes, and it ends
+with the default `(row, col) = (N-1, N-2)`; the block cut out there is `diag(1, e^{iφ})` and,
+re-embedded, is the residual itself: the sub-circuit built for the residual implements exactly the
+residual. -/
+theorem C02_qr_residual_default (U : Mat N) (hU : Uᴴ * U = 1) (hok : SweepOk (pairs N) U)
+    (hN : 2 ≤ N) :
+    getRowCol (residual U) = some (N - 1, N - 2) ∧ codeMatrix (residual U) = some (residual U) := by
+  obtain ⟨_, hd, h1, _⟩ := C02_qr_residual U hU hok
+  exact codeMatrix_diag hN _ ⟨hd, h1⟩
 
-/-- concrete reproducer: `U = ((1+i)/2)·[[1, 1], [1, −1]]` is unitary, has no zero entry, passes the
-sweep, and `_get_row_col` of its residual finds nothing.  All its entries and all intermediate
-results are exactly representable in binary floating point, and indeed
-`qclib.unitary.unitary(np.array([[1+1j, 1+1j], [1+1j, -1-1j]]) / 2, 'qr')` raises
-`UnboundLocalError: cannot access local variable 'col'` on the unchanged tree. -/
+/-- **C02 (before the repair 9d72fec: `_get_row_col` could not locate the residual).**  About the
+model `getRowColOld` of the search WITHOUT a default: on the residual of any accepted sweep it
+finds nothing (Python raised `UnboundLocalError` on the first element of `gate_sequence`); the code
+only worked through rounding noise. -/
+theorem C02_qr_residual_unlocated_before_fix (U : Mat N) (hok : SweepOk (pairs N) U) :
+    getRowColOld (residual U) = none :=
+  getRowColOld_none _ (C02_qr_triangular U hok).1
+
+/-- the reproducer of the finding: `U = ((1+i)/2)·[[1, 1], [1, −1]]` is unitary, has no zero entry,
+passes the sweep, its residual is exactly `diag(1, i)`; the old search found nothing (the unrepaired
+`qclib.unitary.unitary(np.array([[1+1j, 1+1j], [1+1j, -1-1j]]) / 2, 'qr')` raised
+`UnboundLocalError`), the repaired one returns `(1, 0)` and the block is the residual. -/
 example : exHiᴴ * exHi = 1 ∧ (∀ i j, exHi i j ≠ 0) ∧ SweepOk (pairs 2) exHi ∧
-    residual exHi = !![1, 0; 0, Complex.I] ∧ getRowCol (residual exHi) = none :=
-  ⟨exHi_unitary, exHi_nonzero, exHi_ok, exHi_residual, C02_qr_residual_unlocated exHi exHi_ok⟩
+    residual exHi = !![1, 0; 0, Complex.I] ∧ getRowColOld (residual exHi) = none ∧
+    getRowCol (residual exHi) = some (1, 0) ∧ codeMatrix (residual exHi) = some (residual exHi) :=
+  ⟨exHi_unitary, exHi_nonzero, exHi_ok, exHi_residual,
+   C02_qr_residual_unlocated_before_fix exHi exHi_ok,
+   (C02_qr_residual_default exHi exHi_unitary exHi_ok (le_refl 2)).1,
+   (C02_qr_residual_default exHi exHi_unitary exHi_ok (le_refl 2)).2⟩
 
-/-- **C02 (what the real code does with the residual).**  With rounding noise `_get_row_col`
+/-- **C02 (rounding noise on the residual; holds for the code before and after the repair).**  A
+noise entry below the diagonal is a hit and overrides the default: `_get_row_col` then
 returns some below-diagonal position `(row, col)`, `col < row`, of the residual and the circuit
 implements the 2×2 block `[[g[col,col], g[col,row]], [g[row,col], g[row,row]]]` on
 `|0⟩ ↔ col`, `|1⟩ ↔ row`.  For the exact residual `g = diag(1, …, 1, e^{iφ})` of a unitary:
@@ -215,21 +243,38 @@ example : ((0 : Fin 2) < 1) ∧ (1 : Fin 2).val + 1 = 2 := ⟨by decide, rfl⟩
 
 /-! ### (4) the whole circuit -/
 
+/-- **C02 (what the code implements for every element of `gate_sequence`).**  For `N ≥ 2`, unitary
+`U`, a sweep with no `norm = 0` and no `b ∈ {0, 1}`: `_get_row_col` accepts every element `G` of
+the returned list — the residual included — and `G` is its own `codeMatrix` (the block cut out of
+`G`, re-embedded at the levels returned), so the product of the code matrices in circuit order is
+`U`. -/
+theorem C02_qr_code_sequence (U : Mat N) (hU : Uᴴ * U = 1) (hok : SweepOk (pairs N) U)
+    (hloc : SweepLoc (pairs N) U) (hN : 2 ≤ N) :
+    (gateSequence U).map codeMatrix = (gateSequence U).map some ∧
+    circuitOp (gateSequence U) = U := by
+  refine ⟨?_, (C02_qr_sequence U hok).2.2.1⟩
+  rw [(C02_qr_sequence U hok).1, List.map_cons, List.map_cons, List.map_reverse, List.map_reverse,
+    factors_codeMatrix _ (fun p hp => mem_pairs.1 hp) U hloc,
+    (C02_qr_residual_default U hU hok hN).2]
+
 /-- **C02 (whole QR circuit, assembly).**  Let the state space be `Fin N → ℂ` and let the circuit
 be a list of sub-circuits `Ts` (state transformers) applied in list order — `_build_qr_circuit`
 appends one sub-circuit per element of `gate_sequence`, in list order.  If every sub-circuit
-denotes its matrix (`T v = G·v`; for a two-level `G` this is what `C02_qr_gray`, `C02_qr_undo`,
-`C02_qr_orientation` establish for the walk / MCMT / undo body, and `C02_qr_locate` for the block
-the code cuts out) and the residual's sub-circuit denotes the two-level matrix of a position
-`(row, col)` in the LAST row, then the whole circuit denotes `U`: running it on any `v` gives
-`U·v`. -/
+denotes the matrix the code cuts out for its element (`codeMatrix G = some C` and `T v = C·v`; for
+a two-level block this is what `C02_qr_gray`, `C02_qr_undo`, `C02_qr_orientation` /
+`C02_qr_rotation_amp` establish), then the whole circuit denotes `U`: running it on any `v` gives
+`U·v`.  No hypothesis about rounding noise: the residual is accepted at the default of
+`_get_row_col`. -/
 theorem C02_qr_full (U : Mat N) (hU : Uᴴ * U = 1) (hok : SweepOk (pairs N) U)
-    {col row : Fin N} (hcr : col < row) (hlast : row.val + 1 = N)
+    (hloc : SweepLoc (pairs N) U) (hN : 2 ≤ N)
     (Ts : List ((Fin N → ℂ) → (Fin N → ℂ)))
-    (hden : List.Forall₂ (fun T G => ∀ v, T v = G *ᵥ v) Ts
-      (embedBlock (residual U) col row :: (factors (pairs N) U).reverse))
+    (hden : List.Forall₂ (fun T oC => ∃ C, oC = some C ∧ ∀ v, T v = C *ᵥ v) Ts
+      ((gateSequence U).map codeMatrix))
     (v : Fin N → ℂ) : Ts.foldl (fun v T => T v) v = U *ᵥ v := by
-  rw [foldl_denotes Ts _ hden v, ((C02_qr_residual_located U hU hok hcr).1 hlast).2]
+  rw [(C02_qr_code_sequence U hU hok hloc hN).1, List.forall₂_map_right_iff] at hden
+  have hden' : List.Forall₂ (fun T G => ∀ v, T v = G *ᵥ v) Ts (gateSequence U) :=
+    hden.imp (fun T G ⟨C, hC, h⟩ => by rw [← Option.some.inj hC] at h; exact h)
+  rw [foldl_denotes Ts _ hden' v, (C02_qr_sequence U hok).2.2.1]
 
 /-- the same for the list exactly as `_build_qr_gate_sequence` returns it (every element,
 including the residual, given a sub-circuit that denotes it) — no unitarity needed. -/
@@ -271,38 +316,39 @@ theorem C02_qr_rotation_amp {n row col : ℕ} (hrow : row < 2 ^ n) (hlt : col < 
 
 example : (6 : ℕ) < 2 ^ 3 ∧ (1 : ℕ) < 6 ∧ (Uni.qrRotation 3 6 1).isSome = true := by decide
 
-/-- **C02 (whole QR circuit on amplitudes).**  For every `n` and every unitary `U` over
-`Fin (2^n)` whose sweep meets no `norm = 0` and no `b ∈ {0, 1}`: every rotation appended to
-`gate_sequence` is located by `_get_row_col` at its own `(row, col)` and gets the stage
-`codeStage` (gate list `qrRotation`, block cut out of the matrix); with the residual's stage taken
-at a position `(row, col)` of the LAST row (where rounding noise normally puts it), the stages
-composed in list order act on every amplitude function as `U` acts on the `n` low wires. -/
-theorem C02_qr_circuit {n : ℕ} (U : Mat (2 ^ n)) (hU : Uᴴ * U = 1)
-    (hok : SweepOk (pairs (2 ^ n)) U) (hloc : SweepLoc (pairs (2 ^ n)) U)
-    {col row : Fin (2 ^ n)} (hcr : col < row) (hlast : row.val + 1 = 2 ^ n) :
-    ∃ (st0 : Stage) (sts : List Stage), stageAt (residual U) row col = some st0 ∧
-      List.Forall₂ (fun st G => codeStage G = some st) sts (factors (pairs (2 ^ n)) U).reverse ∧
-      ∀ ψ, circSem (st0 :: sts) ψ = actMat U ψ := by
+/-- **C02 (whole QR circuit on amplitudes).**  For every `n ≥ 1` and every unitary `U` over
+`Fin (2^n)` whose sweep meets no `norm = 0` and no `b ∈ {0, 1}`: `_build_qr_circuit` builds a stage
+for EVERY element of `gate_sequence` (`codeStage`: `_get_row_col`, then the gate list `qrRotation`
+with the block cut out of the matrix — the rotations are located at their own `(row, col)`, the
+residual accepted at the default last two levels; no `ValueError`), and the stages composed in list order act on every
+amplitude function (spectator wires included) as `U` acts on the `n` low wires. -/
+theorem C02_qr_circuit {n : ℕ} (hn : 1 ≤ n) (U : Mat (2 ^ n)) (hU : Uᴴ * U = 1)
+    (hok : SweepOk (pairs (2 ^ n)) U) (hloc : SweepLoc (pairs (2 ^ n)) U) :
+    ∃ sts : List Stage,
+      List.Forall₂ (fun st G => codeStage G = some st) sts (gateSequence U) ∧
+      ∀ ψ, circSem sts ψ = actMat U ψ := by
   obtain ⟨sts', hsts'⟩ := factors_stages (pairs (2 ^ n)) (fun p hp => mem_pairs.1 hp) U hloc
-  obtain ⟨st0, hst0, hden0⟩ := stageAt_denotes (residual U) hcr
+  obtain ⟨_, hd, h1, _⟩ := C02_qr_residual U hU hok
+  obtain ⟨st0, hst0, hden0⟩ := diag_stage hn (residual U) ⟨hd, h1⟩
   have hrev := List.rel_reverse hsts'
-  refine ⟨st0, sts'.reverse, hst0, hrev.imp (fun _ _ h => h.1), ?_⟩
-  intro ψ
-  rw [circSem_denotes (st0 :: sts'.reverse)
-    (embedBlock (residual U) col row :: (factors (pairs (2 ^ n)) U).reverse)
-    (List.Forall₂.cons hden0 (hrev.imp (fun _ _ h => h.2))) ψ,
-    ((C02_qr_residual_located U hU hok hcr).1 hlast).2]
+  obtain ⟨hseq, _, hop, _⟩ := C02_qr_sequence U hok
+  refine ⟨st0 :: sts'.reverse, ?_, ?_⟩
+  · rw [hseq]
+    exact List.Forall₂.cons hst0 (hrev.imp (fun _ _ h => h.1))
+  · intro ψ
+    rw [circSem_denotes (st0 :: sts'.reverse) (gateSequence U)
+      (by rw [hseq]; exact List.Forall₂.cons hden0 (hrev.imp (fun _ _ h => h.2))) ψ, hop]
 
-/-- … whereas with the exact `_get_row_col` the residual gets no stage at all (the code raises). -/
-theorem C02_qr_circuit_raises {n : ℕ} (U : Mat (2 ^ n)) (hok : SweepOk (pairs (2 ^ n)) U) :
-    codeStage (residual U) = none := by
-  simp [codeStage, C02_qr_residual_unlocated U hok]
+/-- … whereas before the repair the residual got no stage at all (the code raised). -/
+theorem C02_qr_circuit_raises_before_fix {n : ℕ} (U : Mat (2 ^ n))
+    (hok : SweepOk (pairs (2 ^ n)) U) : codeStageOld (residual U) = none := by
+  simp [codeStageOld, C02_qr_residual_unlocated_before_fix U hok]
 
 /-- non-vacuity (`n = 1`): `(1/5)·[[3, 4], [4, −3]]` satisfies every hypothesis of
-`C02_qr_circuit` with `(row, col) = (1, 0)`. -/
-example : ex345ᴴ * ex345 = 1 ∧ SweepOk (pairs (2 ^ 1)) ex345 ∧ SweepLoc (pairs (2 ^ 1)) ex345 ∧
-    ((0 : Fin (2 ^ 1)) < 1) ∧ (1 : Fin (2 ^ 1)).val + 1 = 2 ^ 1 := by
-  refine ⟨ex345_unitary, ex345_ok, ?_, by decide, rfl⟩
+`C02_qr_circuit` (and of `C02_qr_full`, `C02_qr_code_sequence` with `N = 2`). -/
+example : (1 ≤ 1) ∧ ex345ᴴ * ex345 = 1 ∧ SweepOk (pairs (2 ^ 1)) ex345 ∧
+    SweepLoc (pairs (2 ^ 1)) ex345 := by
+  refine ⟨le_refl 1, ex345_unitary, ex345_ok, ?_⟩
   show SweepLoc (pairs 2) ex345
   rw [pairs_two]
   exact ⟨ex345_loc, trivial⟩
